@@ -680,4 +680,144 @@ theorem frontEnd_rel (opts : Opts) (ho : opts.optStatic = true) (fs : SrcFiles) 
       · simp only [hrep, if_false]
         exact ⟨_, rfl, h2⟩
 
+/-! ## from the relation to `FrontRel` -/
+
+theorem list_ext_getD {α} (l1 l2 : List (Option α)) (hl : l1.length = l2.length) (h : ∀ i, l1.getD i none = l2.getD i none) : l1 = l2 := by
+  apply List.ext_getElem hl
+  intro i h1 h2
+  have := h i
+  simp only [List.getD_eq_getElem?_getD, List.getElem?_eq_getElem h1, List.getElem?_eq_getElem h2, Option.getD_some] at this
+  exact this
+
+theorem sym_of_slot (defs : Defs) (r : Nat) (s : SymDef) (h : defs.symbols.getD r none = some s) : defs.sym r = s := by
+  unfold Defs.sym; rw [h]; rfl
+
+theorem map_unmark_instrs (l : List InstrDef) (h : ∀ ref, (l.getD ref default).resolved = false) :
+    l.map (fun i => { i with resolved := false }) = l := by
+  apply List.ext_getElem (by simp)
+  intro i h1 h2
+  simp only [List.getElem_map]
+  have := h i
+  rw [List.getD_eq_getElem?_getD, List.getElem?_eq_getElem h2, Option.getD_some] at this
+  cases hx : l[i] with
+  | mk a b c dd =>
+    rw [hx] at this
+    simp only at this
+    subst this
+    rfl
+
+theorem map_unmark_datas (l : List DataDef) (h : ∀ ref, (l.getD ref default).resolved = false) :
+    l.map (fun i => { i with resolved := false }) = l := by
+  apply List.ext_getElem (by simp)
+  intro i h1 h2
+  simp only [List.getElem_map]
+  have := h i
+  rw [List.getD_eq_getElem?_getD, List.getElem?_eq_getElem h2, Option.getD_some] at this
+  cases hx : l[i] with
+  | mk a b c =>
+    rw [hx] at this
+    simp only at this
+    subst this
+    rfl
+
+/-- the unoptimised front end's state is the optimised one's with the marks `markedByBoth` only -/
+theorem mrel_unfS (st : Static) (on off : Defs) (m : MRel st.opts st.decls on off)
+    (hfi : ∀ ref, (on.instrs.getD ref default).resolved = false) (hfd : ∀ ref, (on.datas.getD ref default).resolved = false) :
+    off = on.unfS (markedByBoth st on) := by
+  have hmark : ∀ r, (off.sym r).resolved = ((on.sym r).resolved && markedByBoth st on r) := by
+    intro r
+    unfold markedByBoth
+    cases hoff : (off.sym r).resolved with
+    | true =>
+      have hon := m.c2 r hoff
+      have h3 := m.c3 r hoff
+      rw [hon]
+      simp only [Bool.true_and]
+      cases hc : ((on.sym r).known && (st.decls.symbols.decls.getD r default).kind == .constant &&
+          (st.opts.defines.find? (·.1 == (st.decls.symbols.decls.getD r default).name)).isNone) with
+      | false => rfl
+      | true =>
+        exfalso
+        simp only [Bool.and_eq_true, beq_iff_eq] at hc
+        exact h3 ⟨hc.1.2, hc.2⟩
+    | false =>
+      cases hon : (on.sym r).resolved with
+      | false => rfl
+      | true =>
+        obtain ⟨h1, h2, h3⟩ := m.c1 r hon hoff
+        unfold kindOf at h1
+        unfold notDefined at h2
+        simp only [h3, h1, h2, Bool.true_and, beq_self_eq_true, Bool.and_self, Bool.not_true, Bool.and_false]
+  have hsyms : off.symbols = (on.unfS (markedByBoth st on)).symbols := by
+    apply list_ext_getD
+    · rw [unfS_length]; exact m.len
+    · intro r
+      rw [unfS_symbols_getD]
+      cases hx : on.symbols.getD r none with
+      | none =>
+        have := m.slot r
+        rw [hx] at this
+        cases hy : off.symbols.getD r none with
+        | none => rfl
+        | some s => rw [hy] at this; cases this
+      | some s =>
+        have := m.slot r
+        rw [hx] at this
+        cases hy : off.symbols.getD r none with
+        | none => rw [hy] at this; cases this
+        | some t =>
+          have e1 := sym_of_slot on r s hx
+          have e2 := sym_of_slot off r t hy
+          have hv := m.val r
+          have hk := m.kn r
+          have hn := m.ne r
+          have hr := hmark r
+          rw [e1, e2] at hv hk hn hr
+          simp only [Option.map_some, Option.some.injEq]
+          cases s with
+          | mk a b c dd =>
+            cases t with
+            | mk a' b' c' dd' =>
+              simp only at hv hk hn hr
+              subst hv hk hn
+              simp only [SymDef.keep]
+              rw [hr]
+  have hi : off.instrs = (on.unfS (markedByBoth st on)).instrs := by
+    rw [m.instrs]
+    show on.instrs = on.instrs.map (fun i => { i with resolved := false })
+    rw [map_unmark_instrs on.instrs hfi]
+  have hd : off.datas = (on.unfS (markedByBoth st on)).datas := by
+    rw [m.datas]
+    show on.datas = on.datas.map (fun i => { i with resolved := false })
+    rw [map_unmark_datas on.datas hfd]
+  cases off with
+  | mk s1 s2 s3 s4 s5 s6 s7 s8 s9 =>
+    simp only at hsyms hi hd
+    subst hsyms hi hd
+    have := m.banks; have := m.ruledefs; have := m.fns; have := m.res; have := m.aligns; have := m.addrs
+    simp only at *
+    subst_vars
+    rfl
+
+/-- **the two front ends agree up to marks** (`FrontRel`, proved) -/
+theorem frontRel_proved (opts : Opts) (ho : opts.optStatic = true) (fs : SrcFiles) (roots : List (List Char)) :
+    FrontRel opts fs roots := by
+  unfold FrontRel
+  have h := frontEnd_rel opts ho fs roots
+  cases hf : frontEnd opts fs roots with
+  | error e =>
+    rw [hf] at h
+    simp only at h
+    rw [h]; rfl
+  | ok x =>
+    obtain ⟨st, nodes, on⟩ := x
+    rw [hf] at h
+    obtain ⟨off, e1, m⟩ := h
+    rw [e1]
+    simp only [Except.map]
+    have hso : st.opts = opts := (frontEnd_finv opts fs roots st nodes on hf).1
+    have f := frontEnd_frontOK opts ho fs roots st nodes on hf
+    have m' : MRel st.opts st.decls on off := by rw [hso]; exact m
+    rw [mrel_unfS st on off m' f.instrsFresh f.datasFresh]
+
 end Casm
